@@ -91,6 +91,18 @@ func genC18(p *sim.Plan, r *sim.Rand, tier string) {
 			}
 		}
 		p.Horizon = int64(time.Second)
+		// which store: the per-event one (Namespace.OnEvent ... fired by OnServerSideEmit) or the
+		// lifecycle one (Server.OnNewNamespace ... fired by creating namespaces, from several tasks at once)
+		p.Set("store", int64(r.Intn(2)))
+		if p.C("store") == 1 {
+			// one Once registration made well before anything fires: it must run exactly once
+			p.Ops = append(p.Ops, sim.Op{At: 0, Actor: 99, Kind: "once", I: []int64{0, 0}})
+			for i := range p.Ops {
+				if p.Ops[i].Actor != 99 {
+					p.Ops[i].At += 5_000_000
+				}
+			}
+		}
 	}
 }
 
@@ -355,6 +367,10 @@ func uniq(xs []int64) []int64 {
 }
 
 func runC18Race(e *sim.Env) {
+	if e.Plan.C("store") == 1 {
+		runC18RaceLifecycle(e)
+		return
+	}
 	p := e.Plan
 	srv := sio.NewServer(nil)
 	nsp := srv.Of("/c18")
@@ -439,4 +455,98 @@ func runC18Race(e *sim.Env) {
 	}
 	e.Shape(fmt.Sprintf("race fires%d once%d", fires, serial))
 	e.Sample = map[string]any{"mode": "race", "occurrences": fires, "once_registrations": serial, "tasks": len(actors)}
+}
+
+// runC18RaceLifecycle: the same race against the lifecycle handler store (Server.On/Once/OffNewNamespace),
+// whose occurrences are the creations of namespaces by several tasks at once.
+func runC18RaceLifecycle(e *sim.Env) {
+	p := e.Plan
+	srv := sio.NewServer(nil)
+	var mu sync.Mutex
+	onceHits := map[int]int{}
+	onHits, serial, fires := 0, 0, 0
+	earlyOnce := -1
+	var hs [c18H]sio.ServerNewNamespaceFunc
+	for i := range hs {
+		hs[i] = func(*sio.Namespace) {}
+	}
+	srv.OnNewNamespace(func(*sio.Namespace) { mu.Lock(); onHits++; mu.Unlock() })
+	byActor := map[int][]sim.Op{}
+	for _, op := range p.Ops {
+		byActor[op.Actor] = append(byActor[op.Actor], op)
+	}
+	actors := []int{}
+	for a := range byActor {
+		actors = append(actors, a)
+	}
+	sort.Ints(actors)
+	// the early Once registration is made by the root task and has returned before any task starts
+	if _, ok := byActor[99]; ok {
+		serial++
+		earlyOnce = serial
+		id := serial
+		srv.OnceNewNamespace(func(*sio.Namespace) { mu.Lock(); onceHits[id]++; mu.Unlock() })
+		delete(byActor, 99)
+	}
+	for _, a := range actors {
+		a := a
+		ops := byActor[a]
+		e.Go(func() {
+			defer func() {
+				if r := recover(); r != nil {
+					e.Violate("C18/call-panicked", "race: "+stripNums(fmt.Sprint(r)), "task %d: %v", a, r)
+				}
+			}()
+			for k, op := range ops {
+				e.SleepUntil(op.At)
+				switch op.Kind {
+				case "fire":
+					mu.Lock()
+					fires++
+					mu.Unlock()
+					srv.Of(fmt.Sprintf("/c18-%d-%d", a, k))
+				case "once":
+					mu.Lock()
+					serial++
+					id := serial
+					if a == 99 {
+						earlyOnce = id
+					}
+					mu.Unlock()
+					srv.OnceNewNamespace(func(*sio.Namespace) { mu.Lock(); onceHits[id]++; mu.Unlock() })
+				case "on":
+					srv.OnNewNamespace(hs[op.Int(1)])
+				case "off":
+					srv.OffNewNamespace(hs[op.Int(1)])
+				}
+			}
+		})
+	}
+	time.Sleep(time.Duration(p.Horizon))
+	mu.Lock()
+	defer mu.Unlock()
+	ids := []int{}
+	for id := range onceHits {
+		ids = append(ids, id)
+	}
+	sort.Ints(ids)
+	for _, id := range ids {
+		e.Check()
+		if onceHits[id] > 1 {
+			e.Violate("C18/once-ran-twice", "race lifecycle", "a handler registered with OnceNewNamespace (registration %d) ran %d times while %d namespaces were created concurrently", id, onceHits[id], fires)
+		}
+	}
+	e.Check()
+	if earlyOnce >= 0 && fires > 0 && onceHits[earlyOnce] != 1 {
+		e.Violate("C18/once-never-ran", "race lifecycle", "the handler registered with OnceNewNamespace before any of the %d namespace creations began ran %d times", fires, onceHits[earlyOnce])
+	}
+	e.Check()
+	if onHits != fires {
+		e.Violate("C18/on-missed-occurrence", "race lifecycle", "the handler registered with OnNewNamespace before the first creation ran %d times for %d creations", onHits, fires)
+	}
+	if fires >= 2 {
+		e.NonTrivial()
+	}
+	e.Shape(fmt.Sprintf("race lifecycle fires%d once%d", fires, serial))
+	e.Sample = map[string]any{"mode": "race", "store": "lifecycle (Server.On/Once/OffNewNamespace)", "occurrences": fires, "once_registrations": serial, "tasks": len(actors)}
 }
